@@ -593,4 +593,37 @@ theorem gen_arrayPropertyCreate (stores : Nat → Outcome (ValueStoreTail × Byt
         · simp [hb] <;> same_close
       | _ => same_close
 
+/-! ### the check block -/
+
+def CheckInfo.toSrc : CheckInfo → Option Bytes
+  | CheckInfo.none => Option.none
+  | CheckInfo.blake3 h => some h
+
+/-- **The check block is parsed as the source parses it**: `CheckInfo::parse` / `CheckKind::parse`
+    (`common/check.rs`) translated on every run give the stored hash (or its absence) the model's
+    `CheckInfo.decode` gives, on every byte string: kind byte 0 ⇒ no hash, 1 ⇒ the next 32 bytes, anything else
+    (or missing bytes) ⇒ a format error. -/
+theorem gen_checkInfoParse (bs : Bytes) :
+    (Generated.checkInfoParse bs).map' (·.1) = (CheckInfo.decode bs).map' CheckInfo.toSrc := by
+  cases bs with
+  | nil => rfl
+  | cons k rest =>
+    unfold Generated.checkInfoParse Generated.checkKindParse CheckInfo.decode
+    simp only [takeLE_one, Outcome.bind_ok]
+    by_cases h0 : k = 0
+    · subst h0
+      simp [show (0 : UInt8).toNat = 0 from rfl, CheckInfo.toSrc]
+    · by_cases h1 : k = 1
+      · subst h1
+        simp only [show (1 : UInt8).toNat = 1 from rfl, Outcome.bind_ok, takeBytes]
+        by_cases hl : 32 ≤ rest.length
+        · have : rest.length ≥ 32 := hl
+          simp [hl, this, CheckInfo.toSrc]
+        · have : ¬ rest.length ≥ 32 := hl
+          simp [hl, this]
+      · have hk0 : k.toNat ≠ 0 := fun h => h0 (UInt8.toNat_inj.mp h)
+        have hk1 : k.toNat ≠ 1 := fun h => h1 (UInt8.toNat_inj.mp h)
+        simp only [h0, h1, if_false]
+        rfl
+
 end Jubako
